@@ -156,6 +156,7 @@ def run(ctx):
     final = {}
     n_pairs = 0
     ns_diff = 0
+    name_diffs = {}
     for a, b in pairs:
         fail, ns = machine.run([a, b])
         n_pairs += 1
@@ -169,21 +170,26 @@ def run(ctx):
             other = final.pop(key)
             if other != ns:
                 ns_diff += 1
-                diff = sorted(
-                    m
-                    for m in set(ns) | set(other)
-                    if ns.get(m) != other.get(m)
-                )
-                ctx.ob(
-                    "C18.import.names",
-                    index.modules[a],
-                    "import {a}, {b} vs import {b}, {a}".format(a=a, b=b),
-                    False,
-                    "different names bound afterwards in {}".format(diff[:4]),
-                    line=1,
-                )
+                for dm in sorted(set(ns) | set(other)):
+                    if ns.get(dm) != other.get(dm):
+                        only_ab = sorted((ns.get(dm) or set()) - (other.get(dm) or set()))
+                        only_ba = sorted((other.get(dm) or set()) - (ns.get(dm) or set()))
+                        name_diffs.setdefault((dm, tuple(only_ab[:6]), tuple(only_ba[:6])), []).append((a, b))
         elif ctx.tier == "thorough" or (b, a) in sel:
             final[key] = ns
+    for (dm, only_ab, only_ba), lst in sorted(name_diffs.items()):
+        a, b = lst[0]
+        ctx.ob(
+            "C18.import.names",
+            index.modules[dm] if dm in index.modules else (dm, "<module>"),
+            "names bound in {} depend on import order".format(dm),
+            False,
+            "after `import {a}; import {b}` module {dm} additionally binds {x} while after `import {b}; "
+            "import {a}` it additionally binds {y} ({n} ordered pairs differ)".format(
+                a=a, b=b, dm=dm, x=list(only_ab), y=list(only_ba), n=len(lst)
+            ),
+            line=1,
+        )
     ctx.count("ordered_pairs_simulated", n_pairs)
     for (fm, ln, kind, text), lst in sorted(pair_fail.items()):
         mod = index.modules.get(fm)
